@@ -91,6 +91,20 @@ def run(R):
         if not ok:
             R.viol("C10.prune.which", "evicts-farthest", "prune_records_if_needed must evict exactly the recorded farthest record", pr, pr.lines[0])
         R.inst("C10.prune.which", "K6 flows-to", "the single eviction is remove(&farthest_record.key)", len(ev), ok)
+        # a refusal leaves the held set unchanged, and one put evicts at most one record: no path from an eviction to the
+        # MaxRecords refusal, and the eviction is not inside a cycle (`while full { evict }` evicts several / evicts then refuses)
+        g_ = cfg_of(pr)
+        evb = set(evict.blocks(pr))
+        refuse = set(AggSink("libp2p_kad::record::store::Error", "MaxRecords").blocks(pr))
+        after = g_.reach(tuple(d for e in evb for d, _ in g_.succ[e])) if evb else set()
+        ok_r = bool(evb) and not (after & refuse)
+        ok_o = bool(evb) and not (after & evb)
+        if evb and not ok_r:
+            R.viol("C10.prune.refuse-clean", "evict-then-refuse", "prune_records_if_needed can evict a record and then still refuse the incoming one (MaxRecords): a refused put must leave the held set unchanged", pr, pr.lines[0])
+        if evb and not ok_o:
+            R.viol("C10.prune.once", "evict-repeated", "prune_records_if_needed can evict more than one record for one incoming record (the eviction sits in a loop): only the farthest record is evicted", pr, pr.lines[0])
+        R.inst("C10.prune.refuse-clean", "K5 must-not-follow", "no eviction is followed by a MaxRecords refusal", len(evb), ok_r)
+        R.inst("C10.prune.once", "K5 must-not-follow", "at most one eviction per incoming record", len(evb), ok_o)
     pv = R.body("C10.put", PUTV)
     if pv is not None:
         R.gate("C10.put.prune-first", pv, CallSink("tokio::task::spawn::spawn"), [[CallGuard([PRUNE], ("Ok",), "prune_records_if_needed is Ok")]],
